@@ -265,6 +265,16 @@ class ModelLoader(object):
             if not isinstance(stmt, CreateAssociationStmt):
                 continue
             
+            for kind, keys in ((stmt.source_kind, stmt.source_keys),
+                               (stmt.target_kind, stmt.target_keys)):
+                metaclass = metamodel.find_metaclass(kind)
+                for key in keys:
+                    if metaclass.attribute_type(key) is None:
+                        raise ParsingException("%s:%d:%s has no attribute "\
+                                               "named %s" % (stmt.filename,
+                                                             stmt.lineno,
+                                                             kind, key))
+            
             ass = metamodel.define_association(stmt.rel_id,
                                          stmt.source_kind,
                                          stmt.source_keys,
